@@ -16,6 +16,13 @@ P = {}
 def claim(pid, category, technique, text, design_ref, note=None):
     P[pid] = dict(category=category, technique=technique, text=text, design_ref=design_ref, note=note or TRUSTED)
 
+claim("C01", "exploration",
+      "proptest-generated end-to-end sessions (sender -> receiver in emission order) against an independent oracle: bytes/metadata handed to a monitoring ObjectWriter must equal what the sender was given; refusal boundary checked with virtual streams",
+      "Generated sessions over 1-4 objects x 5 FEC schemes x E x B x parity x cenc x in-band/FDT-only signalling x publish mode x interleave/multiplex/priority x transfer count x "
+      "receive-once x source kind x buffer/filesystem writer, object sizes placed at symbol/block/a_large-a_small boundaries and at the scheme maximum (+-1); exactly one completed copy "
+      "(one per transfer with receive-once off) with byte-exact content and metadata, no failed writer, nothing else delivered; objects the wire format cannot carry must be refused. "
+      "A hang is a violation (watchdog). Open findings are excluded by signature (counted) and pinned.",
+      "DESIGN.md section 4 C01")
 claim("C07", "exploration",
       "exhaustive small-box enumeration + proptest boundary triples against a 128-bit reference partition (differential oracle)",
       "All (B<=64,E<=24,L<=4000) triples are enumerated (exhaustive on that box) and every block of every triple is compared with an independent u128 "
